@@ -128,6 +128,7 @@ FORWARD = ("len", "add", "getitem", "attr", "method", "iter", "int", "contains")
 def _pparams():
     out = [dict(mode="nonblocking", what=w) for w in NONBLOCK]
     out += [dict(mode="timeout", what=w) for w in FORWARD]
+    out += [dict(mode="timeout0", what=w) for w in FORWARD]
     out += [dict(mode="resolved_later", what=w) for w in FORWARD]
     return out
 
@@ -185,8 +186,8 @@ def pbody(mc, p):
             mc.emit("client.done", r=brief(r), src=src._state, t=mc.clock)
         mc.spawn(client, "client")
         mc.sleep(5)
-    elif p["mode"] == "timeout":
-        prox = F.f_proxy(src, timeout=2.0)
+    elif p["mode"] in ("timeout", "timeout0"):
+        prox = F.f_proxy(src, timeout=2.0 if p["mode"] == "timeout" else 0)
 
         def client():
             try:
@@ -230,9 +231,10 @@ def pcheck(x):
             x.require(d["r"] is True, "truth-test-wrong")
         if p["what"] == "dunder":
             x.require(d["r"] == "AttributeError", "unknown-dunder-not-attributeerror")
-    elif p["mode"] == "timeout":
+    elif p["mode"] in ("timeout", "timeout0"):
+        want_t = 2.0 if p["mode"] == "timeout" else 0.0
         x.require(d["r"] == "TimeoutError", "timeout-not-honoured", what=p["what"], got=d["r"])
-        x.require(abs(d["t"] - 2.0) < 1e-3, "timeout-at-wrong-time", what=p["what"], t=d["t"])
+        x.require(abs(d["t"] - want_t) < 1e-3, "timeout-at-wrong-time", what=p["what"], t=d["t"])
     else:
         want = {"len": 3, "add": [1, 2, 1, 4], "getitem": 1, "attr": "callable", "method": 2, "iter": [1, 2, 1], "int": "TypeError",
                 "contains": True}[p["what"]]
